@@ -159,6 +159,44 @@ CLAIMED = {
         note=NOTE + "The order among tied alternatives (unstable pandas sort) is an input of the model; numpy Generator is external.",
         technique="Lean 4 theorems on a stream-driven model + proved trace checker run on recorded real traces + differential check",
     ),
+    "C02": dict(
+        text="Proof: refinement of an explicit heap model (store, internal arrays, memo, handed-out references, constructor copies) to the "
+             "immutable-value spec: under the separation + memo-consistency invariant every step (write into a handed-out object, method call, "
+             "read through a copying or memo-then-copy accessor, construction) leaves what every accessor would answer unchanged, hence every "
+             "finite history does (induction). The premise 'no accessor hands out its cache / the constructor keeps no argument' is a decided "
+             "theorem over a table regenerated on every run by classifying 60 accessors and the constructor arguments on live objects. "
+             "Tie: random and exhaustive read/write/call histories on real objects with bit-for-bit snapshots after every step.",
+        note=NOTE + "Object identity inside pandas is validated by the histories, not proved; result extras, axis names and RangeIndex-labelled matrices are outside the claim (DESIGN 16.3).",
+        technique="Lean 4 invariant + refinement by induction over operation histories on a heap model + dynamically regenerated accessor table decided + history differential",
+    ),
+    "C11": dict(
+        text="Proof: each scaler kernel of the model (Sum, Vector, MaxAbs, MinMax incl. clip and refusal, Standard, CenitDistance, PushNegatives, "
+             "AddValueToZero; matrix target per criterion, weights target on the whole vector, the target switch) has its documented normal form "
+             "(sum 1, unit norm, max |.| 1, min->lo & max->hi, mean 0 / population std 1, ideal->1 & anti->0, shifted iff negative minimum, value "
+             "added iff a zero) with the cell formula, and output column j depends only on input column j. Tie: three-leg check for every "
+             "scaler x target x parameter setting.",
+        note=NOTE + "scikit-learn scalers are external: their documented formulas are the model; degenerate columns follow sklearn's handling as modelled.",
+        technique="Lean 4 theorems over ordered fields / R on the scaler kernels + three-leg differential check (code / Lean model / exact Decimal)",
+    ),
+    "C12": dict(
+        text="Proof: every listed transformer is an order isomorphism per criterion in its stated sign domain (< iff <, = iff =); the inverters map "
+             "'better under the old objective' to 'better under maximise' and leave maximise columns alone; hence dominance and strict dominance "
+             "between every pair are invariant, and by induction through any finite pipeline of such steps. Tie: per-criterion oriented sign and "
+             "dm.dominance tables before vs after, dyadic exact + near-tie doubles (merges by rounding counted, never a reversal), exhaustive "
+             "small alphabet in the thorough tier; model transformers followed by the model dominance.",
+        note=NOTE + "Rounding may merge two distinct values (strict becomes equal): reported separately, outside the exact model.",
+        technique="Lean 4 order-isomorphism and dominance-invariance theorems (induction over pipelines) + differential check incl. exhaustive small matrices",
+    ),
+    "C20": dict(
+        text="Proof: if no call changes the object (step o d).1 = o, then for every history, probe position and earlier failure the probe's output "
+             "equals the output of a fresh object, and two objects with equal parameters behave identically; the premise is the decided theorem "
+             "that the table of state writes outside constructors - regenerated on every run by an AST scan of all 55 method classes (attribute "
+             "stores, setattr, container mutators, estimator fits, RNG draws through aliases, globals, memoising decorators) - is empty; a "
+             "caching counter-model shows the premise is necessary. Tie: every method class, histories of varying shape incl. failing calls, "
+             "each run in its own process, outputs compared bit-for-bit, vars(obj) deep-compared.",
+        note=NOTE + "Completeness of the AST scanner is trusted (rules listed in the generated file's header); a harmless write breaks the theorem and is reported no-failing-input-found.",
+        technique="Lean 4 history theorem + regenerated (AST) self-write table decided empty + per-process history differential",
+    ),
 }
 PENDING = "check not built yet (planned in DESIGN.md section 6); not claimed until its model, theorems and correspondence exist"
 
